@@ -867,13 +867,7 @@ pub mod imports {
         let (vis, attrs, comment) = crate::imports::verif_local::facts(tree);
         UseItem {
             tree: encode_tree(tree),
-            vis: vis.map(|v| match v.kind {
-                ast::VisibilityKind::Public => "pub".to_owned(),
-                ast::VisibilityKind::Inherited => String::new(),
-                ast::VisibilityKind::Restricted { ref path, .. } => {
-                    format!("pub({})", rustc_ast_pretty::pprust::path_to_string(path))
-                }
-            }),
+            vis: vis.map(vis_key),
             attrs: attrs.map(|attrs| {
                 attrs
                     .iter()
@@ -882,6 +876,106 @@ pub mod imports {
                     .join("\n")
             }),
             comment,
+        }
+    }
+
+    /// What `is_same_visibility` reads of the visibility of a top-level item.
+    #[derive(Debug, Clone, PartialEq, Eq)]
+    pub struct VisInfo {
+        /// `P` public, `I` inherited, `R<shorthand 0|1>:<name>,<name>..` restricted (names as
+        /// `pprust` prints them, in hex; the `{{root}}` segment of a global path as the empty name)
+        pub enc: String,
+        /// the key `UseItem::vis` carries
+        pub key: String,
+    }
+
+    /// The visibilities of the top-level `use` items of `src`:
+    /// `same[i][j] = is_same_visibility(vis i, vis j)`, and `tree_same[i][j] =
+    /// tree i .same_visibility(tree j)` over their `UseTree`s followed by one tree that has no
+    /// visibility.
+    pub struct VisMatrix {
+        pub items: Vec<VisInfo>,
+        pub same: Vec<Vec<bool>>,
+        pub tree_same: Vec<Vec<bool>>,
+    }
+
+    pub fn visibilities(src: &str, edition: Edition) -> Result<VisMatrix, String> {
+        let config = config_for(StyleEdition::Edition2021, edition);
+        with_parsed(src, &config, |krate, visitor| {
+            let context = visitor.get_context();
+            let items: Vec<&ast::Item> = krate
+                .items
+                .iter()
+                .map(|p| &**p)
+                .filter(|i| matches!(i.kind, ast::ItemKind::Use(..)))
+                .collect();
+            let infos = items
+                .iter()
+                .map(|i| {
+                    let enc = match i.vis.kind {
+                        ast::VisibilityKind::Public => "P".to_owned(),
+                        ast::VisibilityKind::Inherited => "I".to_owned(),
+                        ast::VisibilityKind::Restricted {
+                            ref path,
+                            shorthand,
+                            ..
+                        } => format!(
+                            "R{}:{}",
+                            shorthand as u8,
+                            path.segments
+                                .iter()
+                                .map(|s| {
+                                    let name = s.ident.to_string();
+                                    hex(if name == "{{root}}" { "" } else { &name })
+                                })
+                                .collect::<Vec<_>>()
+                                .join(",")
+                        ),
+                    };
+                    VisInfo {
+                        enc,
+                        key: vis_key(&i.vis),
+                    }
+                })
+                .collect();
+            let same = items
+                .iter()
+                .map(|a| {
+                    items
+                        .iter()
+                        .map(|b| crate::utils::is_same_visibility(&a.vis, &b.vis))
+                        .collect()
+                })
+                .collect();
+            let mut trees: Vec<UseTree> = items
+                .iter()
+                .filter_map(|i| crate::imports::verif_local::from_ast_raw(&context, i))
+                .collect();
+            trees.push(crate::imports::verif_local::tree_from_path(vec![]));
+            let tree_same = trees
+                .iter()
+                .map(|a| {
+                    trees
+                        .iter()
+                        .map(|b| crate::imports::verif_local::same_visibility(a, b))
+                        .collect()
+                })
+                .collect();
+            VisMatrix {
+                items: infos,
+                same,
+                tree_same,
+            }
+        })
+    }
+
+    fn vis_key(v: &ast::Visibility) -> String {
+        match v.kind {
+            ast::VisibilityKind::Public => "pub".to_owned(),
+            ast::VisibilityKind::Inherited => String::new(),
+            ast::VisibilityKind::Restricted { ref path, .. } => {
+                format!("pub({})", rustc_ast_pretty::pprust::path_to_string(path))
+            }
         }
     }
 
